@@ -318,11 +318,22 @@ configMapGenerator:
   options:
     labels:
       x: val
+- name: g2
+  literals:
+  - a=b
+  options:
+    disableNameSuffixHash: true
 secretGenerator:
 - name: s
   literals:
   - a=b
   type: Opaque
+- name: s2
+  literals:
+  - a=b
+  options:
+    annotations:
+      only: annos
 generatorOptions:
   disableNameSuffixHash: false
   labels:
